@@ -97,7 +97,7 @@ CHECKS['C09'] = dict(
     category='model_checking', engine='stream-history-bfs', design_ref='DESIGN.md §3 C09',
     technique='explicit-state BFS over message sequences on 2-3 real Modify streams (server handler + receive loop + result pump under the controlled runtime), session/election reference model with status-code sets from the specification',
     text=('Every sequence to depth 6 (thorough 7, 3 sessions) of open / parameters (5, thorough all 8 mode combinations) / election id (zero, low, high) / operation (stamped, unstamped, batch [violating, valid]) / the three two-field messages / half-close '
-          'on real Modify RPCs of the real server, from the empty server and from an established primary. For each message the model yields OK or the set of status codes and ModifyRPCErrorDetails reasons that specification §4.1 and the compliance suite allow; '
+          'on real Modify RPCs of the real server, from the empty server, from an established primary and from a primary with a held operation. For each message the model yields OK or the set of status codes and ModifyRPCErrorDetails reasons that specification §4.1 and the compliance suite allow; '
           'a terminating violation must not send a response first, must leave RIB, held operations, election state and every other session and stream untouched, and must remove the failed session from the session table.'),
     note='Each message is run to quiescence under the default schedule (interleavings inside a message are C11); where the statement is silent (a live session that has not negotiated yet) both answers are accepted.')
 CHECKS['C10'] = dict(
@@ -117,7 +117,7 @@ CHECKS['C13'] = dict(
     note='Virtual time (the 100 ms poll is a scheduling point); <= 3 operations; an unknown id carrying RIB_PROGRAMMED in FIB-ack mode is deliberately tolerated by the client (late RIB ack) and is not used as a violation.')
 CHECKS['C14'] = dict(
     category='fault_enumeration', engine='schedule-dfs', design_ref='DESIGN.md §3 C14',
-    technique='fault enumeration (stream error at every message index, send and receive side, 2-3 status codes, followed by Close or Reset+Connect) x stateless schedule DFS of the real client; exact goroutine census from the scheduler',
+    technique='fault enumeration (stream error at every message index, send and receive side, 2-3 status codes, followed by Close or Reset+Connect; every non-OK status class at one index per side) x stateless schedule DFS of the real client; exact goroutine census from the scheduler',
     text=('For every fault case the application thread queues a burst of 7 requests (more than the modify buffer) while the stream fails; every schedule within 1 (thorough 2) deviations. Oracle: all Q calls return, AwaitConverged returns the error '
           '(deadlock / livelock of any client thread is the scheduler\'s verdict), Done is signalled, Close / Reset return, no sender or receiver thread is left; after Reset + Connect the client holds no pending / results / errors, the new stream carries exactly '
           'params, election id and the new operation, and the new exchange converges.'),
@@ -152,6 +152,6 @@ CHECKS['C19'] = dict(
     technique='explicit-state closure search over canonical server states with whole compliance tests as transitions + exhaustive ordered pairs + all shuffle permutations under the controlled runtime; fault-wrapper catalogue x designated tests',
     text=('Order independence: from every reachable canonical state of one long-lived reference server (contents, held operations, counters, sessions, relation of the learnt election id to the suite counter) every eligible compliance test is run and must pass; '
           'the reachable set closes (6 states), so every finite order passes by induction; independently every ordered pair of the 76 tests is run (quick: main configuration; thorough: all configurations), for starting election ids 1, 7 (thorough), 2^40 and the forward-reference-free server, '
-          'and the random-order test is run under every permutation. Sensitivity: 11 wrappers that break one protocol requirement at the gRIBI API (no FIB acks, stale-stamped operations acknowledged, idempotent delete failed, Get drops an entry / is stale, Flush no-op, '
-          'election id off by one, repeated parameters accepted, REPLACE of a missing entry acknowledged, unknown instance acknowledged, zero election id accepted): every test designated for the requirement must fail.'),
+          'and the random-order test is run under every permutation. Sensitivity: 23 wrappers that break one protocol requirement at the gRIBI API (no FIB acks, stale-stamped / never-announced-id operations acknowledged, idempotent delete failed, Get drops an entry / is stale / tags the wrong instance, Flush no-op / wrong scope / election unchecked / no instance accepted, '
+          'election id off by one, repeated / mismatched / unsupported parameters accepted, multi-field messages accepted, results sent to every session, REPLACE of a missing entry, DELETE of a referenced entry, invalid IPv4 entry, unknown instance acknowledged, zero election id accepted): every test designated for the requirement must fail.'),
     note='Default schedule per test (interleavings inside the client are C13/C14); timeouts are virtual: "waits forever" is the livelock verdict. Alternative network-instance names are exercised in thorough only. The designation table is in harness/compl/faulty.go with its justification.')
